@@ -7,7 +7,11 @@
 set -u
 PATCH="$(readlink -f "$1")"; shift
 W=$(mktemp -d /tmp/pr.XXXXXX)
-trap 'git -C /repo worktree remove --force "$W/repo" >/dev/null 2>&1; rm -rf "$W"; git -C /repo worktree prune' EXIT INT TERM
+if [ -z "${PR_KEEP:-}" ]; then
+    trap 'git -C /repo worktree remove --force "$W/repo" >/dev/null 2>&1; rm -rf "$W"; git -C /repo worktree prune' EXIT INT TERM
+else
+    echo "keeping $W (remove with: git -C /repo worktree remove --force $W/repo; rm -rf $W)"
+fi
 git -C /repo worktree add --detach "$W/repo" HEAD >/dev/null 2>&1 || { echo "cannot create worktree"; exit 2; }
 git -C "$W/repo" apply "$PATCH" || { echo "patch does not apply"; exit 2; }
 mkdir -p "$W/verif"
